@@ -103,6 +103,23 @@ theorem rect_mean_equinox_norm (jde : ℝ) (lon lat r : ℝ) (w : ℝ × ℝ × 
   have : cl ^ 2 = 1 - sl ^ 2 := by linarith
   rw [this]; ring
 
+/-- Behaviour at the documented boundary of `rectangular_coordinates_equinox`: for the equinox J2000.0 itself
+    the three precession angles vanish and the function returns exactly `rectangular_coordinates_j2000`
+    (including its errors), for every epoch. -/
+theorem rect_equinox_at_j2000 (jde : ℝ) :
+    rectangular_coordinates_equinox jde 2451545 = rectangular_coordinates_j2000 jde := by
+  have hz : angDms 0 0 0 = 0 := by rw [angDms_zero_zero 0 (by norm_num)]; norm_num
+  have ha : equinox_angles jde 2451545 = (0, 0, 0) := by
+    unfold equinox_angles
+    norm_num [hz, angRad, pradians]
+  unfold rectangular_coordinates_equinox
+  cases h : rectangular_coordinates_j2000 jde with
+  | error e => rfl
+  | ok v =>
+    obtain ⟨x, y, z⟩ := v
+    simp [ha, rotate_equinox, pcos, psin]
+
+
 /-! ## `rectangular_coordinates_b1950` is not the B1950 matrix (known finding) -/
 
 /-- "Sun/Earth positions expressed in the … B1950 … frame": the function should apply the B1950 matrix
